@@ -137,7 +137,7 @@ package datatypes
 //  - any other reply changes nothing.
 //@ func (*WiredDatatype).checkOptionAndError
 //@   mode wrap
-//@   props C05 C08 C13 C16 C15
+//@   props C05 C08 C13 C16 C15 C09
 //@   requires wiredWF(its) && its.opID != nil && its.BaseDatatype.Datatype != nil && its.BaseDatatype.ctx != nil
 //@   requires ppp != nil && ppp.CheckPoint != nil && ppp.CheckPoint != its.checkPoint && opsWF(ppp.Operations)
 //@   requires[server-reply-shape] (ppp.GetPushPullPackOption().HasErrorBit() || ppp.GetPushPullPackOption().HasSubscribeBit()) ==> len(ppp.Operations) >= 1
@@ -145,6 +145,7 @@ package datatypes
 //@   ensures[error-reply-reported]  ppp.GetPushPullPackOption().HasErrorBit() ==> result != nil
 //@   ensures[error-changes-nothing] result != nil ==> its.checkPoint.Sseq == old(its.checkPoint.Sseq) && its.checkPoint.Cseq == old(its.checkPoint.Cseq) && len(its.localBuffer) == old(len(its.localBuffer)) && its.opID.Seq == old(its.opID.Seq) && its.opID.Lamport == old(its.opID.Lamport)
 //@   ensures[plain-reply-untouched] !ppp.GetPushPullPackOption().HasErrorBit() && !ppp.GetPushPullPackOption().HasSubscribeBit() ==> result == nil && its.checkPoint.Sseq == old(its.checkPoint.Sseq) && its.checkPoint.Cseq == old(its.checkPoint.Cseq) && len(its.localBuffer) == old(len(its.localBuffer)) && its.opID.Seq == old(its.opID.Seq)
+//@   ensures[a-well-formed-subscribe-reply-is-accepted] !ppp.GetPushPullPackOption().HasErrorBit() && ppp.GetPushPullPackOption().HasSubscribeBit() && (old(ppp.Operations[0].OpType) == model.TypeOfOperation_COUNTER_SNAPSHOT || old(ppp.Operations[0].OpType) == model.TypeOfOperation_MAP_SNAPSHOT || old(ppp.Operations[0].OpType) == model.TypeOfOperation_LIST_SNAPSHOT || old(ppp.Operations[0].OpType) == model.TypeOfOperation_DOC_SNAPSHOT) ==> result == nil
 //@   ensures[the-reply-itself-is-untouched] ppp.CheckPoint == old(ppp.CheckPoint) && ppp.CheckPoint.Sseq == old(ppp.CheckPoint.Sseq) && ppp.CheckPoint.Cseq == old(ppp.CheckPoint.Cseq) && len(ppp.Operations) == old(len(ppp.Operations)) && ppp.Option == old(ppp.Option)
 //@   ensures[subscribe-checkpoint]  result == nil && ppp.GetPushPullPackOption().HasSubscribeBit() ==> its.checkPoint.Cseq == ppp.CheckPoint.Cseq && math(its.checkPoint.Sseq) + len(ppp.Operations) == math(ppp.CheckPoint.Sseq) + (ppp.CheckPoint.Sseq < len(ppp.Operations) ? 18446744073709551616 : 0)
 //@   ensures[subscribe-resets]      result == nil && ppp.GetPushPullPackOption().HasSubscribeBit() ==> len(its.localBuffer) == 0 && its.opID.Seq == 0
@@ -176,7 +177,7 @@ package datatypes
 //@ pred dueTo(s model.StateOfDatatype) = s == model.StateOfDatatype_DUE_TO_CREATE || s == model.StateOfDatatype_DUE_TO_SUBSCRIBE || s == model.StateOfDatatype_DUE_TO_SUBSCRIBE_CREATE
 //@ func (*WiredDatatype).updateStateOfDatatype
 //@   mode wrap
-//@   props C13 C05
+//@   props C13 C05 C07
 //@   requires wiredWF(its) && its.opID != nil && its.wire != nil && ppp != nil
 //@   ensures[returns-transition]   result0 == old(its.state) && result1 == its.state
 //@   ensures[becomes-subscribed]   old(dueTo(its.state)) ==> its.state == model.StateOfDatatype_SUBSCRIBED && its.id == ppp.DUID
@@ -201,6 +202,7 @@ package datatypes
 //@   ensures[handlers-told-once]      spawned("datatypes.(*WiredDatatype).callHandlers") == old(spawned("datatypes.(*WiredDatatype).callHandlers")) + 1
 //@   ensures[error-reply-changes-nothing] old(ppp.GetPushPullPackOption().HasErrorBit()) ==> its.checkPoint.Sseq == old(its.checkPoint.Sseq) && its.checkPoint.Cseq == old(its.checkPoint.Cseq) && len(its.localBuffer) == old(len(its.localBuffer)) && its.opID.Seq == old(its.opID.Seq) && G.receiveCalls == old(G.receiveCalls) && its.state == old(its.state)
 //@   ensures[plain-reply-applied-once] !old(ppp.GetPushPullPackOption().HasErrorBit()) && !old(ppp.GetPushPullPackOption().HasSubscribeBit()) ==> G.receiveCalls == old(G.receiveCalls) + 1
+//@   ensures[a-subscribe-reply-is-applied-once-whatever-the-state-handler-says] !old(ppp.GetPushPullPackOption().HasErrorBit()) && old(ppp.GetPushPullPackOption().HasSubscribeBit()) && (old(ppp.Operations[0].OpType) == model.TypeOfOperation_COUNTER_SNAPSHOT || old(ppp.Operations[0].OpType) == model.TypeOfOperation_MAP_SNAPSHOT || old(ppp.Operations[0].OpType) == model.TypeOfOperation_LIST_SNAPSHOT || old(ppp.Operations[0].OpType) == model.TypeOfOperation_DOC_SNAPSHOT) ==> G.receiveCalls == old(G.receiveCalls) + 1
 //@   ensures[after-a-subscribe-reply-the-rollback-point-is-the-subscribed-datatype] !old(ppp.GetPushPullPackOption().HasErrorBit()) && old(ppp.GetPushPullPackOption().HasSubscribeBit()) && old(dueTo(its.state)) && G.receiveCalls > old(G.receiveCalls) ==> its.TransactionDatatype.$rbID == old(ppp.DUID)
 //@   ensures[a-stale-or-repeated-reply-hands-nothing-to-the-datatype-in-any-state] !old(ppp.GetPushPullPackOption().HasErrorBit()) && !old(ppp.GetPushPullPackOption().HasSubscribeBit()) && old(cpInRange(its.checkPoint, ppp.CheckPoint)) && old(pulledOf(its.checkPoint, ppp.CheckPoint)) <= 0 ==> G.lastReceived == 0
 //@   modifies *
@@ -228,7 +230,7 @@ package datatypes
 // executeRemoteBase: the local clock moves past the remote operation's clock (causality, C15).
 //@ func (*BaseDatatype).executeRemoteBase
 //@   mode wrap
-//@   props C15 C02 C09
+//@   props C15 C02 C09 C11 C04 C01
 //@   requires baseWF(its) && op != nil && op.GetID() != nil
 //@   ensures[clock-not-behind-remote] old(op.GetID() != its.opID && idRoom(its) && op.GetID().Lamport < 4611686018427387904) ==> its.opID.Lamport >= old(op.GetID().Lamport) && its.opID.Lamport >= old(its.opID.Lamport)
 //@   ensures[seq-untouched] its.opID == old(its.opID) && its.opID.Seq == old(its.opID.Seq)
@@ -327,7 +329,7 @@ package datatypes
 // unit, not in the operations awaiting push, and its identifier is given back (C03, C09, C15).
 //@ func (*TransactionDatatype).SentenceInTx
 //@   mode wrap
-//@   props C09 C03 C15
+//@   props C09 C03 C15 C04
 //@   requires txWF(its) && op != nil && (ctx != nil ==> allocated(ctx)) && rollbackSound()
 //@   requires[not-nested] !(its.isLocked && its.txCtx == ctx) ==> !its.isLocked
 //@   ghost-exit G.sentences := old(G.sentences) + 1
@@ -374,7 +376,7 @@ package datatypes
 // otherwise nothing of it is executed (C09).
 //@ func (*TransactionDatatype).ExecuteRemoteTransactionWithCtx
 //@   mode wrap
-//@   props C09
+//@   props C09 C04 C15
 //@   requires txWF(its) && !its.isLocked && rollbackSound() && opsWF(transaction) && (currentTxCtx != nil ==> allocated(currentTxCtx)) && currentTxCtx != its.txCtx
 //@   loop 0 invariant[state] txWF(its) && rollbackSound() && (len(old(transaction)) > 1 ? its.isLocked && its.txCtx == txCtx && opsIDed(its.txCtx.opBuffer) : !its.isLocked)
 //@   loop 0 invariant[only-checked-units-run] len(old(transaction)) > 1 ==> old(transaction[0].OpType) == model.TypeOfOperation_TRANSACTION && operations.announced(old(transaction[0])) == len(old(transaction))
